@@ -12,7 +12,7 @@ import ast
 from ..effects import defeated, extract_effects
 from ..model import AnalysisError, FuncInfo, call_name, last_attr, unparse, walk_no_nested
 from ..semgrep_rules import alternatives
-from ..templates import eval_templates
+from ..templates import HOLE, eval_templates
 
 # codemods whose detector / edit is outside the effect algebra, with the reason (listed in evidence, not judged)
 NOT_MODELLED = {
@@ -186,6 +186,56 @@ def rule_scan_all(ctx, rep, rule_id="R-SCAN-ALL-ELEMENTS"):
         raise AnalysisError(f"only {n} deciding loops found in codemod classes")
 
 
+def rule_no_dup_keyword(ctx, rep, rule_id="R-NO-DUP-KEYWORD"):
+    """Shared by C01 / C07 / C18: appending keyword K to a call that may already have K gives `f(K=a, K=b)` -- a SyntaxError."""
+    from ..semgrep_rules import parse_call
+
+    rep.rule(
+        rule_id,
+        "for every rule-detected codemod whose edit *appends* a keyword argument K (add_arg_to_call / a rebuilt `[*args, Arg(keyword=K)]`): "
+        "every alternative of its own detector rule excludes calls that already carry K (a pattern-not on `K=...`, or a closed argument "
+        "list without K) -- otherwise some reported call gets K twice and the file no longer parses",
+        min_instances=1,
+    )
+    n = 0
+    for cm in rule_detected(ctx):
+        if not cm.rule_text:
+            continue
+        tm, hook = result_hook(ctx, cm)
+        if hook is None:
+            continue
+        effects, _unm = extract_effects(ctx, tm, hook)
+        appended = sorted({e.name for e in effects if e.kind == "AppendKw" and e.name and HOLE not in e.name})
+        if not appended:
+            continue
+        try:
+            alts = alternatives(cm.rule_text)
+        except Exception:
+            continue
+        for K in appended:
+            for i, alt in enumerate(alts):
+                pos_calls = [c for c in (parse_call(p) for p in alt.positives) if c is not None]
+                neg_calls = [c for c in (parse_call(p) for p in alt.negatives) if c is not None]
+                if not pos_calls:
+                    continue
+                n += 1
+                explicit = any(c.kw(K) is not None for c in pos_calls)
+                open_ = any(c.open_arity for c in pos_calls)
+                # a pattern-not excludes *every* call with K only if it constrains nothing else: `f(..., K=$X, ...)`
+                excluded = any(
+                    c.kw(K) is not None and (c.kw(K).text.startswith("$") or c.kw(K).text == "...")
+                    and all(a.kind == "ellipsis" or a is c.kw(K) for a in c.args)
+                    for c in neg_calls
+                )
+                ok = not explicit and (excluded or not open_)
+                rep.check(rule_id, cm.id, hook.loc(), ok, f"{K}@alt{i}",
+                          f"the edit appends `{K}=...` but rule alternative `{(alt.positives or ['?'])[0][:50]}` "
+                          + ("explicitly reports calls that already pass it" if explicit else "does not exclude calls that already pass it")
+                          + f": such a call becomes `f(..., {K}=old, ..., {K}=new)` (SyntaxError: keyword argument repeated)")
+    if n == 0:
+        rep.instance(rule_id, "codebase", "src/", True, detail="no rule-detected codemod appends a keyword")
+
+
 def check(ctx, rep):
     rep.explanation = (
         "The 22 codemods with a semgrep rule of their own are described twice in the repository: as a rule (YAML) and as a libcst "
@@ -195,6 +245,7 @@ def check(ctx, rep):
     fixed_image(ctx, rep)
     rule_table_disjoint(ctx, rep)
     rule_scan_all(ctx, rep)
+    rule_no_dup_keyword(ctx, rep)
     from .c03 import rule_empty_diff
 
     rule_empty_diff(ctx, rep)
